@@ -343,32 +343,67 @@ Definition ar_full_name (r : ar_rule) (t : ar_target) (suffix : ar_str) : ar_str
   | ATSvc h s => ar_h_name h ++ ar_bang :: ar_sv_name s ++ ar_bang :: ar_r_name r ++ suffix
   end.
 
-Fixpoint ar_eval_body (env : ar_env) (b : list ar_expr) : option (list ar_value) :=
+(* ---- the object under construction, as the rule body sees it.  ConfigItem::Commit evaluates the item's
+   expressions in ScriptFrame(true, dobj) after copying the item's scope (a ShallowClone of the rule's
+   frame locals) into its locals; VariableExpression looks a name up in the locals, then among the OWN
+   FIELDS of `this`, then in the globals.  Modelled fields: what EvaluateApplyRuleInstance's expressions
+   set before the body (host_name/name, host_name/service_name, parent/child names), and vars.b0.. as far
+   as the body has assigned them (the observed body lines are `vars.b<i> = <expr>`, in order) *)
+Definition ar_s_vars : ar_str := [118; 97; 114; 115].
+Definition ar_s_host_name : ar_str := [104; 111; 115; 116; 95; 110; 97; 109; 101].
+Definition ar_s_service_name : ar_str := [115; 101; 114; 118; 105; 99; 101; 95; 110; 97; 109; 101].
+Definition ar_s_parent_host_name : ar_str := [112; 97; 114; 101; 110; 116; 95; 104; 111; 115; 116; 95; 110; 97; 109; 101].
+Definition ar_s_child_host_name : ar_str := [99; 104; 105; 108; 100; 95; 104; 111; 115; 116; 95; 110; 97; 109; 101].
+Definition ar_s_child_service_name : ar_str :=
+  [99; 104; 105; 108; 100; 95; 115; 101; 114; 118; 105; 99; 101; 95; 110; 97; 109; 101].
+Fixpoint ar_body_vars (i : Z) (vs : list ar_value) : list (ar_str * ar_value) :=
+  match vs with [] => [] | v :: r => ([98; 48 + i], v) :: ar_body_vars (i + 1) r end.
+
+Definition ar_self_fields (r : ar_rule) (t : ar_target) (suffix : ar_str) (vs : list ar_value) : list (ar_str * ar_value) :=
+  (if ar_r_kind r =? 0 then [(ar_s_host_name, AVStr (ar_t_host t)); (ar_s_name, AVStr (ar_r_name r ++ suffix))]
+   else if ar_r_kind r =? 2 then [(ar_s_parent_host_name, AVStr (ar_r_parent r)); (ar_s_child_host_name, AVStr (ar_t_host t));
+                                  (ar_s_child_service_name, AVStr (ar_t_svc t))]
+   else [(ar_s_host_name, AVStr (ar_t_host t)); (ar_s_service_name, AVStr (ar_t_svc t))])
+  ++ [(ar_s_vars, match vs with [] => AVEmpty | _ => AVDict (ar_body_vars 0 vs) end)].
+
+(* locals first, then the own fields of `this`, then globals: the fields are appended to the locals *)
+Definition ar_body_env (genv : ar_env) (r : ar_rule) (t : ar_target) (suffix : ar_str)
+           (locals : list (ar_str * ar_value)) (vs : list ar_value) : ar_env :=
+  let self := ar_self_fields r t suffix vs in
+  {| ar_locals := locals ++ self; ar_globals := ar_globals genv; ar_this := AVObj self; ar_fn := ar_fn genv |}.
+
+(* the body lines in order; [acc] = the values assigned so far *)
+Fixpoint ar_eval_body (mk : list ar_value -> ar_env) (acc : list ar_value) (b : list ar_expr) : option (list ar_value) :=
   match b with
-  | [] => Some []
-  | e :: r => let v := ar_eval env e in
-              if ar_is_err v then None
-              else match ar_eval_body env r with Some vs => Some (v :: vs) | None => None end
+  | [] => Some acc
+  | e :: r => let v := ar_eval (mk acc) e in
+              if ar_is_err v then None else ar_eval_body mk (acc ++ [v]) r
   end.
 
-(* EvaluateApplyRuleInstance *)
-Definition ar_eval_instance (skip : bool) (genv : ar_env) (r : ar_rule) (t : ar_target)
-           (base : list (ar_str * ar_value)) (inst : ar_str * list (ar_str * ar_value)) : option (list ar_obj) :=
-  let env := ar_mk_env genv (snd inst ++ base) in
+(* EvaluateApplyRuleInstance with the frame locals as they are at the call and the instance's name suffix *)
+Definition ar_inst_at (skip : bool) (genv : ar_env) (r : ar_rule) (t : ar_target)
+           (locals : list (ar_str * ar_value)) (suffix : ar_str) : option (list ar_obj) :=
+  let env := ar_mk_env genv locals in
   match (if skip then Some true else ar_truthy (ar_eval env (ar_r_filter r))) with
   | None => None
   | Some false => Some []
   | Some true =>
       (* ConfigItemBuilder::Compile: "Object names may not contain '!'" *)
-      if existsb (Z.eqb ar_bang) (ar_r_name r ++ fst inst) then None else
-      match ar_eval_body env (ar_r_body r) with
+      if existsb (Z.eqb ar_bang) (ar_r_name r ++ suffix) then None else
+      (* builder.SetScope(frame.Locals->ShallowClone()): the body sees the locals of THIS moment *)
+      match ar_eval_body (ar_body_env genv r t suffix locals) [] (ar_r_body r) with
       | None => None
-      | Some vs => Some [{| ar_o_kind := ar_r_kind r; ar_o_name := ar_full_name r t (fst inst);
-                            ar_o_short := ar_r_name r ++ fst inst;
+      | Some vs => Some [{| ar_o_kind := ar_r_kind r; ar_o_name := ar_full_name r t suffix;
+                            ar_o_short := ar_r_name r ++ suffix;
                             ar_o_host := ar_t_host t; ar_o_svc := ar_t_svc t;
                             ar_o_parent := (if ar_r_kind r =? 2 then ar_r_parent r else []); ar_o_body := vs |}]
       end
   end.
+
+(* one element of the `for` set: its extra locals are in front of (= Set later than) the rule's base locals *)
+Definition ar_eval_instance (skip : bool) (genv : ar_env) (r : ar_rule) (t : ar_target)
+           (base : list (ar_str * ar_value)) (inst : ar_str * list (ar_str * ar_value)) : option (list ar_obj) :=
+  ar_inst_at skip genv r t (snd inst ++ base) (fst inst).
 
 (* EvaluateApplyRule *)
 Definition ar_eval_rule (skip : bool) (genv : ar_env) (r : ar_rule) (t : ar_target) : option (list ar_obj) :=
@@ -405,10 +440,7 @@ Definition ar_validate (inv : list ar_host) (res : option (list ar_obj)) : optio
 
 (* services created by `apply Service` are targets of the `to Service` rules of the other types
    (Service is a load dependency of Notification/Dependency/ScheduledDowntime) *)
-Definition ar_s_vars : ar_str := [118; 97; 114; 115].
 Definition ar_s_display_name : ar_str := [100; 105; 115; 112; 108; 97; 121; 95; 110; 97; 109; 101].
-Fixpoint ar_body_vars (i : Z) (vs : list ar_value) : list (ar_str * ar_value) :=
-  match vs with [] => [] | v :: r => ([98; 48 + i], v) :: ar_body_vars (i + 1) r end.
 Definition ar_svc_of_obj (o : ar_obj) : ar_svc :=
   {| ar_sv_name := ar_o_short o;
      ar_sv_fields := [(ar_s_vars, match ar_o_body o with [] => AVEmpty | vs => AVDict (ar_body_vars 0 vs) end);
